@@ -34,7 +34,10 @@ ASSUMPTIONS = ['scaling under P/S is not judged: the liquid entropy functions of
                'histories: the pressure returned by T/V with the ideal package is compared with the pressure at which the Raoult Rachford-Rice vapour fraction equals the specification, bound 2 Pa (P_tol = 1 Pa) + 1e-5 of the window width (V_tol = 1e-6); a raise of the second flash is counted, not judged (the property speaks about calculations that return) - only the documented refusals, see RULE',
                'harness-side equilibrium model: P_bubble = sum_i z_i gamma_i(z, T) Psat_i pcf_i / phi_i, P_dew by the fixed point x <- z P phi / (gamma(x) Psat pcf); the model objects of the package are evaluated as data, no solver of the library takes part; bubble / dew pressures of the library agree with it to 1e-6 relative + 1e-2 Pa (observed 3e-12)',
                'P/S flashes: the equilibrium entropy as a function of T is not continuous with this package (jumps of up to 1e-2 of S_vap - S_liq, more than the entropy of the vapour present at small vapour fractions), so set_PS cannot locate T finer than that and may fall back on a one-phase state (Hexane/Benzene at 275 kPa, window 0.3 K wide: all liquid 0.5 K above the dew temperature): no re-flash and no fugacity condition is demanded of a P/S result (tried: an independent T-P flash at the returned T differs by up to 1.0 in vapour fraction on the unchanged library), only that the returned T lies inside the window of the P/V flashes at vapour fractions 0.02 / 0.98 widened by max(10 %, 5 K); a P/S specification that lands beyond the all-liquid / all-vapour entropy (one-phase result) is outside the box of the property and not judged; a one-phase P/S result that an independent T-P flash at the returned T confirms and that misses the entropy by less than 2e-2 of S_vap - S_liq (a jump of the entropy functions: the one-phase state is found by solving S(T) = target on them) is not judged either, as for a single chemical - both were formerly filed under the recorded first-order-correction finding although no material had been moved; that finding is now granted only up to R * ln 2 * (the amount moved = difference to the equilibrium split at the returned T)',
-               'P/H flashes: an independent T-P flash at the returned T reproduces H to 1e-5 K*C + 10 * T_tol * |dH/dT| across the window (T_tol = 5e-8 K, kept as a constant of the harness); the T-specified H / S searches are judged as before (P_tol = 1 Pa)']
+               'P/H flashes: an independent T-P flash at the returned T reproduces H to 1e-5 K*C + 10 * T_tol * |dH/dT| across the window (T_tol = 5e-8 K, kept as a constant of the harness); the T-specified H / S searches are judged as before (P_tol = 1 Pa)',
+               'thorough run 11: (1) an independent T-P flash of the library that serves as the reference for the state a P/H or V-specified flash returned is itself subject to the recorded fixed-point finding (it may return an iterate that is not the limit): it is judged by the iso-fugacity clause like every T-P flash inside the box, and when the harness-side successive substitution from its split converges elsewhere the reference is that limit (reach counters reflash:*/reference=limit-of-fixed-point); '
+               '(2) a one-phase P/S result inside the two-phase window is not judged for entropy reproduction when the specified entropy lies within the MEASURED noise of the entropy function of the saturated value and is missed by no more than the bound plus that noise - the noise is the spread of the returned stream\'s own entropy over 33 temperatures within 1.6e-3 K (benzene liquid from the thermo dependency: 2 - 4 J/mol/K; every other liquid and all gases of the workload: 0 .. 1.5e-3), so contents with continuous entropy functions keep the plain bound; '
+               '(3) raises of a flash carry the pressure bucket in the input class (P-specified temperature solve above 5e5 Pa = /high-pressure, as in C08) and are counted per attempted solve of that class (reach P-spec:<class>/high-pressure); the pair of temperature solves the history clauses ask of the library to place the second flash are keyed and counted the same way']
 FAM = {'alcohol': ('Methanol', 'Ethanol', 'Propanol', 'Butanol'), 'hydrocarbon': ('Hexane', 'Heptane', 'Octane', 'Benzene', 'Toluene')}
 ANY = ('Water', 'Acetone') + FAM['alcohol'] + FAM['hydrocarbon']
 _th = {}
@@ -52,7 +55,9 @@ def required(tier):
             'history:second=TP', 'history:second=TV', 'history:second=PV', 'history:second=PH', 'history:second=TH', 'history:second=xy',
             # oracle audit (round 6): harness-side references and the observation points that must not fall silent
             'own-model:window', 'boundary:solver-vs-model', 'spec-xy:equilibrium', 'spec-xy:both-phases', 'spec-xy:refusal-verified', 'reflash:PH', 'window:PS', 'reflash:PH/chained',
-            'returned:PT', 'returned:PV', 'returned:TV', 'returned:HP', 'returned:PS', 'returned:HT', 'returned:ST', 'T-spec-HS:family', 'T-spec-HS:ideal', 'P-spec-HS:family', 'P-spec-HS:ideal', 'scaling-TP:family', 'scaling-TP:cross-family']
+            'returned:PT', 'returned:PV', 'returned:TV', 'returned:HP', 'returned:PS', 'returned:HT', 'returned:ST', 'T-spec-HS:family', 'T-spec-HS:ideal', 'P-spec-HS:family', 'P-spec-HS:ideal', 'scaling-TP:family', 'scaling-TP:cross-family',
+            # thorough run 11: denominator of the rate bound of the recorded raise of the dew-temperature solver at high pressure within a family
+            'P-spec:family/high-pressure']
 
 
 def chem(i):
@@ -302,9 +307,38 @@ def dew_P_mechanism(th, cs, z, T):
     return ''
 
 
+def reference_limit(rec, th, cs, ref, vids, vidx, ids, T, P, of):
+    """(thorough run 11) an independent T-P flash `ref` (two phases, family mixture) serves as the reference for the state another flash returned - but the T-P flash has a recorded
+    finding of its own: its fixed point may return an iterate that is not its limit (Hexane/Heptane/Toluene/Benzene at 386.852 K, 240.7 kPa: vapour fraction 0.02766 with fugacities
+    2e-3 apart, where the limit - and the P/H result that was judged against it - is 0.03005).  The reference flash is therefore judged by the iso-fugacity clause like every T-P flash
+    inside the box, and when the harness finds it to be such an iterate (its own successive substitution from that split, on the package's model objects as data, converges elsewhere:
+    fixed_point_limit) the limit is written into `ref`, which then is the equilibrium state at (T, P) indeed.  Returns True when `ref` was replaced"""
+    g = ref.imol['g'].to_array()[vidx]; l = ref.imol['l'].to_array()[vidx]
+    if not (g.sum() > 0 and l.sum() > 0): return False
+    x = l / l.sum(); y = g / g.sum(); V = float(g.sum() / (g.sum() + l.sum()))
+    fl, fg = own_fugacities(th, cs, x, y, T, P); dev = float((np.abs(fl - fg) / fg).max()); obs('iso:TP/reference', dev)
+    st, lim = fixed_point_limit(th, cs, x, y, V, T, P) if dev > ISO_TOL else ('at-fixed-point', None)
+    if 280. <= T <= 450. and 2e4 <= P <= 1e6:
+        rec.check(dev <= ISO_TOL, 'iso-fugacity', 'TP' + ('/unconverged-fixed-point' if st == 'unconverged' else '/reference'),
+                  f'liquid and vapour fugacities differ by {dev:.3g} (relative) after vle(T={T!r}, P={P!r}) on {ids} (the independent flash at the state {of} returned): f_l={fl.tolist()}, f_g={fg.tolist()}', residual=dev)
+    if st != 'unconverged': return False
+    Ft = float(g.sum() + l.sum())
+    for i, gv, lv in zip(vids, lim[2] * Ft * lim[1], (1. - lim[2]) * Ft * lim[0]): ref.imol['g', i] = gv; ref.imol['l', i] = lv
+    return True
+
+
 def klass(kind, *inerts):
     """input class carried by the keys of the recorded findings: the kind of mixture and whether an inert (non-condensable gas / non-volatile solute) is present"""
     return kind + ('+inert' if any(inerts) else '')
+
+
+HIGH_P = 5e5      # Pa: the 'high-pressure' bucket of a P-specified solve (as in the C08 workload: the recorded divergence of the dew-temperature solver within a family is a high-pressure phenomenon)
+
+
+def p_bucket(spec):
+    """'/high-pressure' for a flash that solves for the temperature at a specified pressure above HIGH_P (P with V, H, S, x or y), else '': part of the input class in the keys of raises"""
+    P = spec.get('P')
+    return '/high-pressure' if P is not None and 'T' not in spec and not (P <= HIGH_P) else ''
 
 
 def run_case(case, rec):
@@ -335,6 +369,8 @@ def run_case(case, rec):
           counted under a ceiling).  (The library has no DomainError class, although REFUSE lists the name: it is not granted.)
         Everything else is reported."""
         nm = ''.join(sorted(spec)); last.clear()
+        pb = p_bucket(spec)
+        if pb: rec.hit(f'P-spec:{cls}{pb}')      # attempted temperature solves at a specified pressure above HIGH_P, per input class: denominator of the rate bound of the recorded raise of the dew-temperature solver
         try:
             s.vle(**spec); rec.hit('returned:' + nm); return True
         except Exception as e:
@@ -348,8 +384,8 @@ def run_case(case, rec):
                     rec.refuse(f'{nm}: {tn}' if tn in REFUSE else f'{nm}: raised {tn}'); last['verified'] = True; return False
             if tn == 'NotImplementedError' and nm in ('HT', 'ST') and inerts and 'cannot solve for pressure' in msg:
                 rec.refuse(f'{nm}: {tn}'); rec.hit('refused-unverified:' + nm); return False
-            # (the input class is part of the key: 'C04/flash/<class>/exception/<type>@<function>')
-            rec.exception('flash/' + cls, e, what=f'vle({spec}) on {ids} ({cls}) raised {tn}: {msg[:140]} - not a documented refusal for this specification and these inputs'); return False
+            # (the input class is part of the key: 'C04/flash/<class>[/high-pressure]/exception/<type>@<function>')
+            rec.exception('flash/' + cls + pb, e, what=f'vle({spec}) on {ids} ({cls}) raised {tn}: {msg[:140]} - not a documented refusal for this specification and these inputs'); return False
 
     with warnings.catch_warnings():
         warnings.simplefilter('ignore')
@@ -490,6 +526,8 @@ def run_case(case, rec):
                 if flash(s3, T=s.T, P=s.P):
                     V3 = vfrac(s3, vidx)
                     sfx_ = ''
+                    if abs(V3 - V0) > REFLASH_TOL + vb and 0 < V3 < 1 and reference_limit(rec, th, tuple(chems[i] for i in case['ids']), s3, case['ids'], vidx, ids, float(s.T), float(s.P), f'a {spec_name[0]}/V flash'):
+                        V3 = vfrac(s3, vidx); rec.hit('reflash:V-spec/reference=limit-of-fixed-point')      # (the reference was an unconverged iterate of the T-P fixed point: reported under its own clause, replaced by the limit)
                     obs('reflash:' + spec_name, abs(V3 - V0) - vb)
                     if abs(V3 - V0) > REFLASH_TOL + vb:
                         # mechanism: do the library's own bubble and dew solvers bracket a two-phase window at the returned state? (a dew temperature below the
@@ -620,6 +658,8 @@ def run_case(case, rec):
                                   f'the P/V flashes at vapour fractions 0.02 and 0.98 are at T={Tlo_!r} and T={Thi_!r}')      # (no residual recorded: kelvins would swamp the vapour-fraction residuals of the clause)
                     if chk is not None and kind in ('family', 'ideal'):
                         Vc = vfrac(chk, vidx); valc = getattr(chk, q)
+                        if kind == 'family' and 0 < Vc < 1 and reference_limit(rec, th, tuple(chems[i] for i in case['ids']), chk, case['ids'], vidx, ids, float(s.T), P0, 'a P/H flash'):
+                            Vc = vfrac(chk, vidx); valc = getattr(chk, q); rec.hit('reflash:PH/reference=limit-of-fixed-point')
                         slopeT = abs(hi - lo) / max(abs(Thi_ - Tlo_), 1e-9)      # T_tol = 5e-8 K translated with the slope across the two-phase window
                         # (+ the resolution of the two fixed points, K_tol = 1e-6: the vapour fractions of the flash inside the search and of the independent one differ by up to 2.5e-7 - observed -, which moves H by that fraction of the window)
                         base = 1e-5 * chk.C + PH_V_TOL * abs(hi - lo)
@@ -658,14 +698,26 @@ def run_case(case, rec):
                             # all-vapour values')?  Targets 0.5 - 1.5 % outside the V = 0.02 .. 0.98 values can lie beyond the saturated value, because the entropy functions of the package
                             # jump by that much; the one-phase state is then located by solving S(T) = target on a function that is not continuous in T (not the flash's doing, as for
                             # a single chemical).  Formerly these cases were filed under '/first-order-correction-error' although no material was moved.
-                            sat = make(case, th)
-                            if flash(sat, P=P0, V=Vs) and ((target <= sat.S) if Vs == 0.0 else (target >= sat.S)):
+                            sat = make(case, th); sat_S = float(sat.S) if flash(sat, P=P0, V=Vs) else None
+                            if sat_S is not None and ((target <= sat_S) if Vs == 0.0 else (target >= sat_S)):
                                 rec.refuse('P/S: specified entropy beyond the all-liquid / all-vapour value (one-phase state on entropy functions that are not continuous in T): entropy reproduction not judged'); continue
                             # ... or within a jump of those functions of the saturated value (S evaluated at T_bubble twice differs by up to 1e-2 of S_vap - S_liq, so set_PS takes the feed for subcooled):
                             # the state is one phase, an independent T-P flash at the returned T confirms that phase, and the entropy is missed by no more than such a jump (2e-2 granted)
                             one = make(case, th)
                             if abs(got - target) <= ENTROPY_JUMP * rng_ and flash(one, T=float(s.T), P=P0) and vfrac(one, vidx) == Vs:
                                 rec.refuse('P/S: one-phase result confirmed by an independent T-P flash, entropy missed by less than a jump of the entropy functions (not continuous in T): entropy reproduction not judged'); continue
+                            # (thorough run 11) ... or the one-phase state lies INSIDE the two-phase window (so the T-P flash does not confirm it) because the search of set_PS ended at a small
+                            # vapour (liquid) fraction whose whole entropy is less than the noise of the entropy function: the final correction then condenses (vaporises) all of it, f = 1, and
+                            # the one-phase solve S(T) = target runs on the noisy function (Benzene/Octane/Toluene at 937 kPa, target 0.006 of S_vap - S_liq above the saturated liquid: the search ends
+                            # at vapour fraction 0.0062, all liquid is returned 0.33 K above the bubble temperature, entropy missed by 0.0127 of S_vap - S_liq; the liquid entropy of benzene from the
+                            # thermo dependency - HEOS_FIT integral of Cp / T - takes the values 245.4 / 247.4 / 249.4 J/mol/K at adjacent temperatures).  The noise is MEASURED by the harness, on the
+                            # returned stream's own entropy function around the returned T (spread of 33 evaluations within 1.6e-3 K, the smooth change C / T * dT taken off): granted only when the
+                            # specification lies within that measured spread of the saturated value and the entropy is missed by no more than bound + spread; contents whose entropy functions are
+                            # continuous (spread 0) are judged with the plain bound
+                            N_ = entropy_noise(s); obs(f'PS:{cls}:noise', N_ / rng_)
+                            if N_ > 0. and sat_S is not None and (target - sat_S if Vs == 0.0 else sat_S - target) <= N_ and abs(got - target) <= sbound + N_:
+                                rec.hit('PS:one-phase/entropy-noise')
+                                rec.refuse('P/S: one-phase result, specified entropy within the measured noise of the entropy function of the saturated value and missed by no more than that noise (entropy functions not continuous in T): entropy reproduction not judged'); continue
                         # the final step of set_PS moves a fraction of one phase into the other assuming the entropy is linear in that fraction; what it
                         # neglects is the entropy of mixing, bounded by R*F*ln(2) for the material moved (R in kJ/kmol/K, F in kmol/hr)
                         if fixed_name == 'P' and sbound < abs(got - target) <= 8.314462618 * s.F_mol * math.log(2.):
@@ -692,6 +744,21 @@ def run_case(case, rec):
 
 def rows_of(s):
     return np.array([r.to_array() for r in s.imol.data.rows])
+
+
+def entropy_noise(s, n=16, dT=5e-5):
+    """how far the entropy function of the stream's present contents and split is from being continuous in T at the stream's temperature: the spread (max - min) of S evaluated on a copy at
+    2 n + 1 temperatures within n * dT of it, less the smooth change C / T * (2 n dT).  0 for continuous property functions (up to rounding); for the liquid entropies of the thermo
+    dependency that jump between adjacent temperatures (benzene: whole J/mol/K) the size of those jumps times the amount present.  Property functions evaluated as data; no solver takes part"""
+    try:
+        c = s.copy(); T = float(s.T); v = []
+        for k in range(-n, n + 1):
+            c.T = T + k * dT; v.append(float(c.S))
+        c.T = T
+        return max(0.0, max(v) - min(v) - 2.0 * float(c.C) / T * (2 * n * dT))      # (twice the smooth change: a margin for the curvature, 1e-6 of S_vap - S_liq)
+    except Exception as e:
+        if isinstance(e, (TypeError, AttributeError, NameError, KeyError, IndexError)): raise
+        return 0.0
 
 
 def raoult_split(zv, K, nl=0.0):
@@ -1050,6 +1117,11 @@ def fixed_point_status(th, cs, x, y, V, T, P):
     """mechanism probe for an iso-fugacity mismatch: continue the plain successive substitution (K = gamma Psat pcf / (phi P), Rachford-Rice for V) from the returned split,
     with the package's own model objects as data.  'unconverged' when that iteration converges (step < 1e-12) to a split whose fugacities agree to 1e-8 and which lies more
     than 1e-5 (ten times the flash's K_tol = 1e-6) away from the returned one: the flash returned an iterate of its fixed point, not its limit."""
+    return fixed_point_limit(th, cs, x, y, V, T, P)[0]
+
+
+def fixed_point_limit(th, cs, x, y, V, T, P):
+    """(status, (x, y, V) of the limit or None): see fixed_point_status; the limit is the equilibrium split of the harness-side model at (T, P) for the overall composition of the returned split"""
     try:
         gam = th.Gamma(cs); phi = th.Phi(cs); pcf = th.PCF(cs)
         Psat = np.array([c.Psat(T) for c in cs]); pc = pcf(T, P, Psat)
@@ -1058,18 +1130,18 @@ def fixed_point_status(th, cs, x, y, V, T, P):
         for _ in range(500):
             K = pc * Psat * gam(x.copy(), T) / (phi(y.copy(), T, P) * P)
             Vn = _bisect(lambda v: float((z * (K - 1) / (1 + v * (K - 1))).sum()), 1e-12, 1 - 1e-12)
-            if Vn is None: return 'unknown'
+            if Vn is None: return 'unknown', None
             xn = z / (1 + Vn * (K - 1)); yn = K * xn; xn = xn / xn.sum(); yn = yn / yn.sum()
             step = max(np.abs(xn - x).max(), np.abs(yn - y).max(), abs(Vn - V))
             x, y, V = xn, yn, Vn
             if step < 1e-12: break
-        else: return 'unknown'
+        else: return 'unknown', None
         fl = x * gam(x.copy(), T) * Psat * pc; fg = y * phi(y.copy(), T, P) * P
-        if float((np.abs(fl - fg) / fg).max()) > 1e-8: return 'unknown'
+        if float((np.abs(fl - fg) / fg).max()) > 1e-8: return 'unknown', None
         moved = max(np.abs(x - x0).max(), np.abs(y - y0).max(), abs(V - V0))
-        return 'unconverged' if moved > 1e-5 else 'at-fixed-point'
+        return ('unconverged' if moved > 1e-5 else 'at-fixed-point'), (x, y, V)
     except Exception:
-        return 'unknown'
+        return 'unknown', None
 
 
 def _bisect(f, lo, hi, n=100):
@@ -1100,7 +1172,8 @@ def history_clauses(h, rec):
     two = False
 
     def flash(s, step, **spec):
-        nm = ''.join(sorted(spec))
+        nm = ''.join(sorted(spec)); pb = p_bucket(spec)
+        if pb: rec.hit(f"P-spec:{klass(h['kind'], n2A or n2B)}{pb}")
         try:
             s.vle(**spec); rec.hit('returned:' + nm); return True
         except Exception as e:
@@ -1110,7 +1183,7 @@ def history_clauses(h, rec):
             if ((tn == 'InfeasibleRegion' and ('x' in spec or 'y' in spec) and 'phase composition' in msg)
                     or (tn == 'NotImplementedError' and nm in ('HT', 'ST') and (n2A or n2B) and 'cannot solve for pressure' in msg)):
                 rec.refuse(f'history/{step}/{nm}: {tn}'); rec.hit('refused-unverified:' + nm); return False
-            rec.exception('flash/' + klass(h['kind'], n2A or n2B), e, what=f'{step} flash of a history ({hist}): vle({spec}) raised {tn}: {msg[:140]} - not a documented refusal for this specification and these inputs'); return False
+            rec.exception('flash/' + klass(h['kind'], n2A or n2B) + pb, e, what=f'{step} flash of a history ({hist}): vle({spec}) raised {tn}: {msg[:140]} - not a documented refusal for this specification and these inputs'); return False
 
     def Psats(ids_, T): return np.array([chems[i].Psat(T) for i in ids_])
 
@@ -1128,10 +1201,14 @@ def history_clauses(h, rec):
             Tb = _bisect(lambda T: (z * Psats(ids_, T)).sum() - P, 250., 480., 60); Td = _bisect(lambda T: 1. / (z / Psats(ids_, T)).sum() - P, 250., 480., 60)
             return None if Tb is None or Td is None else (Tb, Td)
         cs = tuple(chems[i] for i in ids_)
+        # (the pair of temperature solves the harness asks for to place the second flash: counted with the P-specified flashes of the class; a raise carries class and pressure bucket,
+        #  as the flashes do - the recorded raise of the dew-temperature solver at high pressure within a family reaches the harness here exactly as it reaches vle(P, V))
+        pb = p_bucket({'P': P})
+        if pb: rec.hit(f"P-spec:{h['kind']}{pb}")
         try: return float(eq.BubblePoint(cs, th).solve_Ty(z.copy(), P)[0]), float(eq.DewPoint(cs, th).solve_Tx(z.copy(), P)[0])
         except Exception as e:
             if type(e).__name__ == 'InfeasibleRegion': rec.refuse(f'history: bubble/dew point unavailable: {type(e).__name__}')
-            else: rec.exception('phase-boundary', e, what=f'history: BubblePoint.solve_Ty / DewPoint.solve_Tx on {ids_} (z={z.tolist()}, P={P}) raised {type(e).__name__}: {str(e)[:140]}')
+            else: rec.exception('phase-boundary/' + h['kind'] + pb, e, what=f'history: BubblePoint.solve_Ty / DewPoint.solve_Tx on {ids_} (z={z.tolist()}, P={P}) raised {type(e).__name__}: {str(e)[:140]}')
             return None
 
     def P_inside(ids_, x_, T, V):
